@@ -10,6 +10,7 @@
 //   svc     "S <steps> <hex document>"      steps over {P,Q,V,A,R,N}: strict parser, permissive parser, validator,
 //                                           analyser, printer, annotator scenarios
 //   imp     "I <strict 0|1> <dir> <main file> <script>"   importer scenarios on files written by the check
+//   hist    "Y <service> <strict> <input>..." | "Z <strict> <dir> <main>..."   ONE service instance over several inputs
 //
 // The driver is linked with  -Wl,--wrap=  on LoggerImpl::addIssue / removeAllIssues / removeError, so every
 // primitive logger operation performed by any service is recorded (per LoggerImpl object).  After each service
@@ -340,6 +341,14 @@ static Coh checkLoggerCoherent(Logger *logger)
             }
             for (size_t i = 0; i < cnt; ++i) {
                 IssuePtr x = get(i);
+                if (x == nullptr) {
+                    bad << nm3[lv] << "(" << i << ")=null-below-" << nm3[lv] << "Count;";
+                    break;
+                }
+                if (int(x->level()) != lv) {
+                    bad << nm3[lv] << "(" << i << ")-has-level-" << int(x->level()) << ";";
+                    break;
+                }
                 if (i >= byLevel[lv].size() || x != byLevel[lv][i]) {
                     bad << nm3[lv] << "(" << i << ")-is-not-the-" << i << "th-" << nm3[lv] << ";";
                     break;
@@ -559,6 +568,8 @@ static std::string typeName(AnalyserModel::Type t)
     return AnalyserModel::typeAsString(t);
 }
 
+static std::string analyserResult(const AnalyserPtr &analyser, bool &failing);
+
 static void annotatorScenarios(const ModelPtr &model, std::vector<std::string> &out)
 {
     auto ann = fresh(Annotator::create());
@@ -711,6 +722,55 @@ static std::string modeSvc(const std::string &line)
             bool failing = ty == AnalyserModel::Type::INVALID || ty == AnalyserModel::Type::UNDERCONSTRAINED
                            || ty == AnalyserModel::Type::OVERCONSTRAINED || ty == AnalyserModel::Type::UNSUITABLY_CONSTRAINED;
             out.push_back(record("analyser", "analyseModel", typeName(ty), analyser.get(), explainedIf(failing, analyser.get())));
+        } else if (st == 'E') {
+            // analysis with external variables: one of the model, one of another model
+            if (model == nullptr) {
+                continue;
+            }
+            VariablePtr own;
+            std::function<void(const ComponentPtr &)> findVar = [&](const ComponentPtr &c) {
+                if (own == nullptr && c->variableCount() > 0) {
+                    own = c->variable(c->variableCount() - 1);
+                }
+                for (size_t i = 0; own == nullptr && i < c->componentCount(); ++i) {
+                    findVar(c->component(i));
+                }
+            };
+            for (size_t i = 0; own == nullptr && i < model->componentCount(); ++i) {
+                findVar(model->component(i));
+            }
+            auto analyser = fresh(Analyser::create());
+            auto otherModel = Model::create("other");
+            auto otherComponent = Component::create("oc");
+            auto otherVariable = Variable::create("ov");
+            otherModel->addComponent(otherComponent);
+            otherComponent->addVariable(otherVariable);
+            analyser->addExternalVariable(AnalyserExternalVariable::create(otherVariable));
+            if (own != nullptr) {
+                analyser->addExternalVariable(AnalyserExternalVariable::create(own));
+                for (size_t i = 0; i < own->equivalentVariableCount(); ++i) {
+                    analyser->addExternalVariable(AnalyserExternalVariable::create(own->equivalentVariable(i)));
+                }
+            }
+            announce("analyser.analyseModel(external variables)");
+            analyser->analyseModel(model);
+            bool failing = false;
+            std::string res = analyserResult(analyser, failing);
+            out.push_back(record("analyser", "analyseModel_external", res, analyser.get(), explainedIf(failing, analyser.get())));
+        } else if (st == 'M') {
+            // a math string that the parser would never store (set through the API), then validation
+            if (model == nullptr || model->componentCount() == 0) {
+                continue;
+            }
+            auto c = model->component(0);
+            const char *maths[] = {"<apply xmlns=\"http://www.w3.org/1998/Math/MathML\"/>", "<math", ""};
+            for (const char *mstr : maths) {
+                c->setMath(mstr);
+                auto validator = fresh(Validator::create());
+                announce("validator.validateModel(api math)");
+                validator->validateModel(model);
+                out.push_back(record("validator", "validateModel_apimath", std::to_string(validator->errorCount()), validator.get(), "na"));
+            }
         } else if (st == 'R') {
             auto printer = fresh(Printer::create());
             announce("printer.printModel");
@@ -798,6 +858,14 @@ static std::string modeImp(const std::string &line)
             out.push_back(record("importer", "resolveImports_null", ok ? "1" : "0", lg, explainedIf(!ok, lg)));
             auto flat = importer->flattenModel(nullModel);
             out.push_back(record("importer", "flattenModel_null", flat ? "model" : "null", lg, explainedIf(flat == nullptr, lg)));
+        } else if (st == 'v') {
+            if (model == nullptr) {
+                continue;
+            }
+            auto validator = fresh(Validator::create());
+            announce("validator.validateModel(after resolve)");
+            validator->validateModel(model);
+            out.push_back(record("validator", "validateModel_importing", std::to_string(validator->errorCount()), validator.get(), "na"));
         } else if (st == 'c') {
             if (model != nullptr) {
                 importer->clearImports(model);
@@ -813,10 +881,164 @@ static std::string modeImp(const std::string &line)
     return s.empty() ? "-" : s;
 }
 
+// ------------------------------------------------------------------------------------------------ mode hist
+// "Y <service> <strict 0|1> <input> <input> ..."   input = hex document | NULL
+//   ONE instance of the service is used for the whole sequence of inputs.
+//   service: P parser   V validator   A analyser   R printer   N annotator   I importer (documents without files)
+// "Z <strict 0|1> <dir> <main> <dir> <main> ..."   ONE importer resolves and flattens several import graphs in turn.
+
+static ModelPtr parseInput(const std::string &tok)
+{
+    if (tok == "NULL") {
+        return nullptr;
+    }
+    auto p = Parser::create(false);
+    return p->parseModel(hexdecode(tok));
+}
+
+static std::string analyserResult(const AnalyserPtr &analyser, bool &failing)
+{
+    auto am = analyser->model();
+    auto ty = am ? am->type() : AnalyserModel::Type::UNKNOWN;
+    failing = ty == AnalyserModel::Type::INVALID || ty == AnalyserModel::Type::UNDERCONSTRAINED
+              || ty == AnalyserModel::Type::OVERCONSTRAINED || ty == AnalyserModel::Type::UNSUITABLY_CONSTRAINED;
+    return typeName(ty);
+}
+
+static std::string joinRecords(const std::vector<std::string> &out)
+{
+    std::string s;
+    for (size_t i = 0; i < out.size(); ++i) {
+        s += (i ? " ; " : "") + out[i];
+    }
+    return s.empty() ? "-" : s;
+}
+
+static std::string modeHist(const std::string &line)
+{
+    auto t = splitws(line);
+    std::vector<std::string> out;
+    if (t.at(0) == "Z") {
+        bool strict = t.at(1) == "1";
+        auto importer = fresh(Importer::create(strict));
+        Logger *lg = importer.get();
+        for (size_t k = 2; k + 1 < t.size(); k += 2) {
+            std::string n = std::to_string((k - 2) / 2);
+            auto parser = fresh(Parser::create(strict));
+            auto model = parser->parseModel(slurp(t[k] + "/" + t[k + 1]));
+            if (model == nullptr) {
+                continue;
+            }
+            announce("importer.resolveImports#" + n);
+            bool ok = importer->resolveImports(model, t[k] + "/");
+            announce(std::string("-> resolveImports=") + (ok ? "1" : "0"));
+            out.push_back(record("importer", "resolveImports#" + n, ok ? "1" : "0", lg, explainedIf(!ok, lg)));
+            if (ok) {
+                announce("importer.flattenModel#" + n);
+                auto flat = importer->flattenModel(model);
+                out.push_back(record("importer", "flattenModel#" + n, flat ? "model" : "null", lg, explainedIf(flat == nullptr, lg)));
+            }
+        }
+        return joinRecords(out);
+    }
+    const char svc = t.at(1).at(0);
+    const bool strict = t.at(2) == "1";
+    ParserPtr parser;
+    ValidatorPtr validator;
+    AnalyserPtr analyser;
+    PrinterPtr printer;
+    AnnotatorPtr annotator;
+    ImporterPtr importer;
+    switch (svc) {
+    case 'P': parser = fresh(Parser::create(strict)); break;
+    case 'V': validator = fresh(Validator::create()); break;
+    case 'A': analyser = fresh(Analyser::create()); break;
+    case 'R': printer = fresh(Printer::create()); break;
+    case 'N': annotator = fresh(Annotator::create()); break;
+    case 'I': importer = fresh(Importer::create(strict)); break;
+    default: return "BADCASE";
+    }
+    for (size_t k = 3; k < t.size(); ++k) {
+        if (t[k].empty()) {
+            continue;
+        }
+        const std::string n = "#" + std::to_string(k - 3);
+        if (svc == 'P') {
+            announce("parser.parseModel" + n);
+            auto m = parser->parseModel(t[k] == "NULL" ? std::string() : hexdecode(t[k]));
+            out.push_back(record(strict ? "parser_strict" : "parser_permissive", "parseModel" + n, m ? "model" : "null", parser.get(),
+                                 explainedIf(m == nullptr, parser.get())));
+            continue;
+        }
+        ModelPtr m = parseInput(t[k]);
+        const std::string in = m ? "model" : "nullmodel";
+        if (svc == 'V') {
+            announce("validator.validateModel" + n);
+            validator->validateModel(m);
+            out.push_back(record("validator", "validateModel" + n, in + ":" + std::to_string(validator->errorCount()), validator.get(),
+                                 explainedIf(m == nullptr, validator.get())));
+        } else if (svc == 'A') {
+            announce("analyser.analyseModel" + n);
+            analyser->analyseModel(m);
+            bool failing = false;
+            std::string res = analyserResult(analyser, failing);
+            out.push_back(record("analyser", "analyseModel" + n, in + ":" + res, analyser.get(), explainedIf(failing || m == nullptr, analyser.get())));
+        } else if (svc == 'R') {
+            announce("printer.printModel" + n);
+            std::string s = printer->printModel(m, (k % 2) == 0);
+            out.push_back(record("printer", "printModel" + n, in + ":" + (s.empty() ? "empty" : "text"), printer.get(), "na"));
+        } else if (svc == 'N') {
+            announce("annotator.calls" + n);
+            Logger *lg = annotator.get();
+            ModelPtr mm = m;
+            bool b = annotator->assignAllIds(mm);
+            out.push_back(record("annotator", std::string(m ? "assignAllIds_model" : "assignAllIds_nullmodel") + n, b ? "1" : "0", lg,
+                                 explainedIf(m == nullptr, lg)));
+            annotator->setModel(m);
+            out.push_back(record("annotator", "setModel" + n, in, lg, "na"));
+            auto ids = annotator->ids();
+            auto it = annotator->item(ids.empty() ? std::string("none") : ids.front());
+            bool undef = it->type() == CellmlElementType::UNDEFINED;
+            out.push_back(record("annotator", "item" + n, undef ? "undef" : "found", lg, explainedIf(undef, lg)));
+            auto it2 = annotator->item("no_such_id_q", 1);
+            out.push_back(record("annotator", "item_missing" + n, it2->type() == CellmlElementType::UNDEFINED ? "undef" : "found", lg,
+                                 explainedIf(it2->type() == CellmlElementType::UNDEFINED, lg)));
+            annotator->ids();
+            std::string sid = annotator->assignId(m);
+            out.push_back(record("annotator", "assignId_model" + n, sid.empty() ? "empty" : "id", lg, explainedIf(sid.empty(), lg)));
+            bool c = annotator->assignIds(CellmlElementType::VARIABLE);
+            out.push_back(record("annotator", "assignIds" + n, c ? "1" : "0", lg, explainedIf(m == nullptr, lg)));
+            annotator->clearAllIds(mm);
+            out.push_back(record("annotator", "clearAllIds" + n, in, lg, explainedIf(m == nullptr, lg)));
+        } else if (svc == 'I') {
+            Logger *lg = importer.get();
+            announce("importer.resolveImports" + n);
+            bool ok = importer->resolveImports(m, "/nonexistent-dir-c15/");
+            announce(std::string("-> resolveImports=") + (ok ? "1" : "0"));
+            out.push_back(record("importer", "resolveImports" + n, in + ":" + (ok ? "1" : "0"), lg, explainedIf(!ok, lg)));
+            // flattening is only asked of null or validator-accepted models: flattenModel on invalid import-free models
+            // (e.g. a used units definition that references a missing units) crashes, which is a defect of the flattening
+            // preconditions (C06 / C01), not of issue reporting
+            bool acceptable = m == nullptr;
+            if (m != nullptr && ok) {
+                auto v = Validator::create();
+                v->validateModel(m);
+                acceptable = v->errorCount() == 0;
+            }
+            if (acceptable) {
+                announce("importer.flattenModel" + n);
+                auto flat = importer->flattenModel(m);
+                out.push_back(record("importer", "flattenModel" + n, in + ":" + (flat ? "model" : "null"), lg, explainedIf(flat == nullptr, lg)));
+            }
+        }
+    }
+    return joinRecords(out);
+}
+
 int main(int argc, char **argv)
 {
     if (argc < 3) {
-        fprintf(stderr, "usage: %s rules|holder|ops|svc|imp <case file>\n", argv[0]);
+        fprintf(stderr, "usage: %s rules|holder|ops|svc|imp|hist <case file>\n", argv[0]);
         return 2;
     }
     std::string mode = argv[1];
@@ -835,6 +1057,9 @@ int main(int argc, char **argv)
     }
     if (mode == "imp") {
         return runCases(cases, [](const std::string &l) { gTrace.clear(); return modeImp(l); }, 30);
+    }
+    if (mode == "hist") {
+        return runCases(cases, [](const std::string &l) { gTrace.clear(); return modeHist(l); }, 60);
     }
     fprintf(stderr, "unknown mode %s\n", mode.c_str());
     return 2;
